@@ -524,6 +524,11 @@ class HierDictDocument(DictDocument):
 
                         return None
 
+                    if subinst is None:
+                        # a null item is a null item, and not an empty object
+                        retval.append(None)
+                        continue
+
                     retval.append(self._to_dict_value(cls, subinst, tags,
                                                       cls_orig=cls_orig or cls))
 
